@@ -1,0 +1,34 @@
+//go:build verif
+
+package keystore
+
+// Contracts for govc (see /verif/DESIGN.md, C05): a signature request for a public key is answered with the private key
+// stored for that key's address, and that private key is the one derived at the address's own branch and index.
+
+//@ func (*KeystoreManagerForPoC).getAddrManager
+//@   ensures manager-holding-the-address: err == nil ==> result0 != nil && has(result0.addrs, addr)
+//@   assert-at return#1 found-in-this-manager: ok && acctM == kmc.managedKeystores[acctID]
+
+//@ func (*KeystoreManagerForPoC).SignHash
+//@   assert-at call newPoCAddress address-of-the-asked-key: arg0 == pubKey
+//@   assert-at call getAddrManager manager-owning-that-address: arg1 == lastresult("EncodeAddress")
+//@   assert-at call signPocec signs-the-given-hash-for-that-address: arg0 == lastresult("getAddrManager") && arg1 == hash && arg2 == lastresult("EncodeAddress")
+//@   assert-at return#-1 the-signature-obtained: result0 == lastresult("signPocec") && result1 == nil
+
+//@ func (*KeystoreManagerForPoC).SignMessage
+//@   assert-at call newPoCAddress address-of-the-asked-key: arg0 == pubKey
+//@   assert-at call HashH digest-of-the-message: arg0 == message
+//@   assert-at call getAddrManager manager-owning-that-address: arg1 == lastresult("EncodeAddress")
+//@   assert-at call signPocec signs-the-message-digest-for-that-address: arg0 == lastresult("getAddrManager") && arg2 == lastresult("EncodeAddress") && len(arg1) == 32
+//@   assert-at return#-1 the-signature-obtained: result0 == lastresult("signPocec") && result1 == nil
+
+//@ func (*AddrManager).signPocec
+//@   assert-at call Sign with-the-private-key-stored-for-that-address: a.unlocked && len(hash) == 32 && arg0 == a.addrs[addr].privKey && arg1 == hash
+//@   ensures refused-while-locked: !old(a.unlocked) ==> err != nil
+
+//@ func (*AddrManager).updatePrivKeys
+//@   assert-at call Child#1 internal-branch-of-the-decrypted-account-key: arg0 == lastresult("NewKeyFromString") && arg1 == 1
+//@   assert-at call Child#2 external-branch-of-the-decrypted-account-key: arg0 == lastresult("NewKeyFromString") && arg1 == 0
+//@   assert-at call Child#3 private-key-derived-at-the-address-own-branch-and-index: arg0 == ite(mAddr.derivationPath.Branch == 0, lastresult("Child#2"), lastresult("Child#1")) && arg1 == mAddr.derivationPath.Index
+//@   assert-at call ECPrivKey of-that-child: arg0 == lastresult("Child#3")
+//@   assert-at store ManagedAddress.privKey stored-on-that-address: value == lastresult("ECPrivKey") && target == mAddr
